@@ -219,6 +219,16 @@ func gen(seed int64, n int, tier string) []interface{} {
 			for u := r.Intn(4); u > 0; u-- { // unused single-type imports
 				orphan++
 				add(javagen.Import{Pkg: []string{"unused.pkg", "com.acme.blog", "java.util"}[r.Intn(3)], Name: fmt.Sprintf("Orphan%d", orphan)})
+				switch r.Intn(6) {
+				case 0: // a second unused import of the same simple name from another package
+					f.Imports = append(f.Imports, javagen.Import{Pkg: "other.place", Name: fmt.Sprintf("Orphan%d", orphan)})
+				case 1: // the same import line twice
+					f.Imports = append(f.Imports, f.Imports[len(f.Imports)-1])
+				}
+			}
+			if r.Intn(8) == 0 { // two unused static imports of the same member name
+				f.Imports = append(f.Imports, javagen.Import{Pkg: "org.junit.Assert", Name: "assertSame", Static: true},
+					javagen.Import{Pkg: "org.testng.Assert", Name: "assertSame", Static: true})
 			}
 			r.Shuffle(len(f.Imports), func(a, b int) { f.Imports[a], f.Imports[b] = f.Imports[b], f.Imports[a] })
 			for j := range f.Imports {
